@@ -50,11 +50,13 @@ const (
 // ---------------------------------------------------------------- inputs
 
 // c12Input is one case: Pre names pristine shipped tables that are parsed first (table numbers
-// 0..len(Pre)-1), B is the AML byte code (without the 36-byte SDT header) of the table under test.
+// 0..len(Pre)-1), B is the AML byte code (without the 36-byte SDT header) of the table under test,
+// Post names pristine shipped tables presented to the same parser afterwards, whatever the outcome.
 type c12Input struct {
 	ID   string          `json:"id"`
 	Src  string          `json:"src,omitempty"`
 	Pre  []string        `json:"pre,omitempty"`
+	Post []string        `json:"post,omitempty"`
 	Hex  string          `json:"hex,omitempty"`
 	B    []int           `json:"b,omitempty"`
 	Plan json.RawMessage `json:"plan,omitempty"`
@@ -180,6 +182,7 @@ type c12Event struct {
 	S     [][]interface{} `json:"S"`     // per []byte held by a live object: [slot, table, off(4 limbs), len(4 limbs)]
 	Alone int             `json:"alone"` // 1 when the outcome was reproduced with the input alone in a fresh process
 	Pre   []string        `json:"pre,omitempty"`
+	Post  []string        `json:"post,omitempty"`
 	Hex   string          `json:"hex"`
 	Plan  json.RawMessage `json:"plan,omitempty"`
 	Seed  json.RawMessage `json:"seed,omitempty"`
@@ -272,7 +275,7 @@ func c12PanicText(r interface{}) string {
 // (including memory faults on the guard page); fatal errors and overruns are the parent's business.
 func c12RunOne(in *c12Input, ev *c12Event) {
 	aml := in.bytes()
-	ev.K, ev.ID, ev.Src, ev.N, ev.Pre, ev.Plan, ev.Seed = "parse", in.ID, in.Src, len(aml), in.Pre, in.Plan, in.Seed
+	ev.K, ev.ID, ev.Src, ev.N, ev.Pre, ev.Post, ev.Plan, ev.Seed = "parse", in.ID, in.Src, len(aml), in.Pre, in.Post, in.Plan, in.Seed
 	ev.Hex = hex.EncodeToString(aml)
 	ev.PP, ev.L, ev.S, ev.TL = -1, [][6]int{}, [][]interface{}{}, []int{}
 
@@ -285,6 +288,13 @@ func c12RunOne(in *c12Input, ev *c12Event) {
 		tables = append(tables, b)
 	}
 	tables = append(tables, aml)
+	for _, p := range in.Post {
+		b, err := c12Fixture(p)
+		if err != nil {
+			panic("c12: cannot load fixture " + p + ": " + err.Error())
+		}
+		tables = append(tables, b)
+	}
 	var guards []*c12Guarded
 	var bases []uintptr
 	defer func() {
@@ -319,9 +329,10 @@ func c12RunOne(in *c12Input, ev *c12Event) {
 		}()
 		ev.Res = "ok"
 		for i := range tables {
+			// a rejected table does not end the case: the tables after it are presented to the same parser
 			if err := parser.ParseAML(uint8(i), "T"+strconv.Itoa(i), (*table.SDTHeader)(unsafe.Pointer(bases[i]))); err != nil {
-				ev.Res, ev.Msg = "error", "table "+strconv.Itoa(i)+": "+err.Message
-				break
+				ev.Res = "error"
+				ev.Msg += "table " + strconv.Itoa(i) + ": " + err.Message + "; "
 			}
 		}
 	}()
@@ -401,7 +412,7 @@ func TestVerifC12Child(t *testing.T) {
 				continue
 			}
 			ev := &c12Event{K: "parse", ID: c.in.ID, Src: c.in.Src, N: len(c.in.bytes()), TL: []int{}, PP: -1, L: [][6]int{}, S: [][]interface{}{},
-				Hex: hex.EncodeToString(c.in.bytes()), Pre: c.in.Pre, Plan: c.in.Plan, Seed: c.in.Seed, CPU: int(used / time.Millisecond)}
+				Hex: hex.EncodeToString(c.in.bytes()), Pre: c.in.Pre, Post: c.in.Post, Plan: c.in.Plan, Seed: c.in.Seed, CPU: int(used / time.Millisecond)}
 			if used > c.budget {
 				ev.Res, ev.Msg = "timeout", fmt.Sprintf("still running after %d ms CPU (budget %d ms for %d bytes)", used/time.Millisecond, c.budget/time.Millisecond, ev.N)
 			} else {
@@ -414,7 +425,7 @@ func TestVerifC12Child(t *testing.T) {
 	for _, in := range ins {
 		write(c12Begin{K: "begin", ID: in.ID})
 		total := c12HeaderLen + len(in.bytes()) // the bound is on the bytes presented: all tables, headers included
-		for _, p := range in.Pre {
+		for _, p := range append(append([]string{}, in.Pre...), in.Post...) {
 			if b, err := c12Fixture(p); err == nil {
 				total += c12HeaderLen + len(b)
 			}
@@ -435,8 +446,18 @@ type c12Runner struct {
 	out     *bufio.Writer
 	nEvents int
 	nDead   int
+	nSkip   int
 	seq     int
+	// deaths of a batch child that did not reproduce with the input alone
+	anomalies []string
 }
+
+// c12Overruns counts CPU / heap overruns over all runners.  Every overrun costs its full budget, so
+// after c12MaxOverruns of them the exploration stops early: the recorded events (with the overruns)
+// are judged as usual and the number of inputs left out is written next to the trace.
+var c12Overruns int32
+
+const c12MaxOverruns = 2
 
 func c12WriteInputs(path string, ins []*c12Input) error {
 	f, err := os.Create(path)
@@ -448,6 +469,9 @@ func c12WriteInputs(path string, ins []*c12Input) error {
 		rec := map[string]interface{}{"id": in.ID, "src": in.Src, "hex": hex.EncodeToString(in.bytes())}
 		if len(in.Pre) > 0 {
 			rec["pre"] = in.Pre
+		}
+		if len(in.Post) > 0 {
+			rec["post"] = in.Post
 		}
 		if in.Plan != nil {
 			rec["plan"] = in.Plan
@@ -520,6 +544,9 @@ func (r *c12Runner) spawn(ins []*c12Input) (events [][]byte, deadAt int, death s
 		// the watchdog reported the overrun as the last event and stopped the child
 		return events, -2 - finished, "watchdog"
 	}
+	if strings.Contains(stderr.String(), "panic: c12") {
+		c12Die("c12: harness trouble in the child (machinery, not a verdict):\n%s", c12Tail(stderr.String(), 1500))
+	}
 	if begun > finished && begun < len(ins) {
 		msg := stderr.String()
 		death = "child died: " + fmt.Sprint(werr)
@@ -555,7 +582,7 @@ func (r *c12Runner) emit(line []byte) {
 
 func (r *c12Runner) deadEvent(in *c12Input, death string, alone int) []byte {
 	ev := &c12Event{K: "parse", ID: in.ID, Src: in.Src, N: len(in.bytes()), TL: []int{}, Res: "fatal", Msg: death, PP: -1,
-		L: [][6]int{}, S: [][]interface{}{}, Alone: alone, Pre: in.Pre, Hex: hex.EncodeToString(in.bytes()), Plan: in.Plan, Seed: in.Seed}
+		L: [][6]int{}, S: [][]interface{}{}, Alone: alone, Pre: in.Pre, Post: in.Post, Hex: hex.EncodeToString(in.bytes()), Plan: in.Plan, Seed: in.Seed}
 	b, _ := json.Marshal(ev)
 	return b
 }
@@ -577,6 +604,10 @@ func c12BatchLen(ins []*c12Input, max int) int {
 // run pushes all inputs through child processes, batch by batch.
 func (r *c12Runner) run(ins []*c12Input, batch int) {
 	for len(ins) > 0 {
+		if atomic.LoadInt32(&c12Overruns) >= c12MaxOverruns {
+			r.nSkip += len(ins)
+			return
+		}
 		n := c12BatchLen(ins, batch)
 		events, deadAt, death := r.spawn(ins[:n])
 		for _, e := range events {
@@ -587,6 +618,7 @@ func (r *c12Runner) run(ins []*c12Input, batch int) {
 			ins = ins[n:]
 		case deadAt <= -2: // watchdog stopped the child after reporting input number -2-deadAt
 			r.nDead++
+			atomic.AddInt32(&c12Overruns, 1)
 			ins = ins[(-2-deadAt)+1:]
 		default:
 			// the child died while parsing ins[deadAt]: run that input alone in a fresh process
@@ -597,10 +629,15 @@ func (r *c12Runner) run(ins []*c12Input, batch int) {
 			case dead2 == 0:
 				r.emit(r.deadEvent(culprit, death2, 1))
 			case len(ev2) == 1 && dead2 <= -2:
+				atomic.AddInt32(&c12Overruns, 1)
 				r.emit(ev2[0])
 			case len(ev2) == 1:
-				// survived alone: record what the batch run did, marked as not reproduced in isolation
-				r.emit(r.deadEvent(culprit, death, 0))
+				// The input alone in a fresh process behaves: the death of the batch child is not
+				// attributable to this input (the inputs share nothing but the Go runtime; think of the
+				// OOM killer on a crowded machine).  The isolated run is the observation; the anomaly
+				// is reported next to the trace.
+				r.anomalies = append(r.anomalies, culprit.ID+": "+death)
+				r.emit(ev2[0])
 			default:
 				c12Die("c12: could not re-run input %s alone", culprit.ID)
 			}
@@ -697,13 +734,21 @@ func TestVerifC12Run(t *testing.T) {
 			r.out.Write(bufs[i].Bytes())
 			r.nEvents += rs[i].nEvents
 			r.nDead += rs[i].nDead
+			r.nSkip += rs[i].nSkip
+			r.anomalies = append(r.anomalies, rs[i].anomalies...)
 		}
 	}
 	if err := r.out.Flush(); err != nil {
 		t.Fatal(err)
 	}
-	if r.nEvents != len(ins) {
-		t.Fatalf("c12: %d events for %d inputs", r.nEvents, len(ins))
+	if r.nEvents+r.nSkip != len(ins) {
+		t.Fatalf("c12: %d events and %d skipped for %d inputs", r.nEvents, r.nSkip, len(ins))
 	}
-	t.Logf("c12: %d inputs, %d events, %d child deaths/overruns", len(ins), r.nEvents, r.nDead)
+	if r.nSkip > 0 {
+		_ = os.WriteFile(outPath+".truncated", []byte(strconv.Itoa(r.nSkip)), 0644)
+	}
+	if len(r.anomalies) > 0 {
+		_ = os.WriteFile(outPath+".anomalies", []byte(strings.Join(r.anomalies, "\n")), 0644)
+	}
+	t.Logf("c12: %d inputs, %d events, %d child deaths/overruns, %d not run after %d overruns", len(ins), r.nEvents, r.nDead, r.nSkip, atomic.LoadInt32(&c12Overruns))
 }
